@@ -305,7 +305,7 @@ fn unary(m: &mut M, n: u64, frac_only: bool) {
 /// +-a, and every low-word class beside a), both signs
 fn new_words(m: &mut M, n: u64) {
     let mut deal = Deal { idx: 0, n: n.max(1), slice: m.slice };
-    for e in [0, 1, -1000, 999, -1021, -480, 511] {
+    for e in [0, 1, -1000, 999, -1021, -480, 511, 1022, 1023, -1022] {
         for sig in SIGS {
             let a = word(sig, e, false);
             if !a.is_finite() {
@@ -394,6 +394,48 @@ fn rems(m: &mut M, n: u64) {
     }
 }
 
+/// exp at the exact NODES of its lookup tables (C14, C01): x = y/2 for every integer y the reduction can produce
+/// (the exp(1/2)^y and exp(16)^a tables are then used bare or as a single product, with a zero residual), x = n/128
+/// for every entry of the exp(n/128)-1 table, every exp(16)^a entry combined with every n/128, each with a zero
+/// low word and with a tiny low word of either sign; the hyperbolic functions at the same nodes
+fn exp_nodes(m: &mut M, n: u64) {
+    let mut deal = Deal { idx: 0, n: n.max(1), slice: m.slice };
+    // (x, on a main axis of the tables?)
+    let mut xs: Vec<(f64, bool)> = Vec::new();
+    for y in -1500..=1420 {
+        xs.push((y as f64 / 2.0, true));
+    }
+    for k in -32..=32 {
+        xs.push((k as f64 / 128.0, true));
+        for a in -44..=44 {
+            xs.push((a as f64 * 16.0 + k as f64 / 128.0, false));
+        }
+    }
+    for (x, axis) in xs {
+        for lo in [0.0, pow2(-80), -pow2(-80), pow2(-1074)] {
+            if !axis && lo != 0.0 {
+                continue;
+            }
+            if !deal.take() {
+                continue;
+            }
+            m.group_every(40, "nodes");
+            let lo = if x == 0.0 && lo != 0.0 { 0.0 } else { lo * if x.abs() > 1.0 { x.abs() } else { 1.0 } };
+            let lo = if lo.abs() < pow2(-1074) { lo.signum() * pow2(-1074) * if lo == 0.0 { 0.0 } else { 1.0 } } else { lo };
+            if !m.load(0, x, lo) {
+                continue;
+            }
+            m.call("elem", "exp", "inh", Some(1), &[A::R(0)]);
+            if x.abs() <= 700.0 && deal.idx % 8 == 0 {
+                m.call("elem", "sinh", "inh", Some(1), &[A::R(0)]);
+                m.call("elem", "cosh", "inh", Some(1), &[A::R(0)]);
+                m.call("elem", "tanh", "inh", Some(1), &[A::R(0)]);
+                m.call("elem", "exp_m1", "inh", Some(1), &[A::R(0)]);
+            }
+        }
+    }
+}
+
 pub fn run(m: &mut M, _r: &mut Rng, family: &str, n: u64) -> bool {
     match family {
         "lattice_add" => binary(m, "add", n, &[(0, 0), (-1000, 0), (999, 0), (-1020, 0)]),
@@ -405,6 +447,7 @@ pub fn run(m: &mut M, _r: &mut Rng, family: &str, n: u64) -> bool {
         "lattice_frac" => unary(m, n, true),
         "lattice_new" => new_words(m, n),
         "lattice_rem" => rems(m, n),
+        "exp_nodes" => exp_nodes(m, n),
         _ => return false,
     }
     true
